@@ -197,11 +197,12 @@ fn nt_c17(cx: &Ctx, _c: &WCase) -> bool {
 
 // ------------------------------------------------------------------ definitions
 
-const STD: [(Profile, u32); 6] = [
-    (Profile::AnySingle, 36),
-    (Profile::Composed, 34),
-    (Profile::Share, 7),
-    (Profile::ShareNested, 8),
+const STD: [(Profile, u32); 7] = [
+    (Profile::AnySingle, 34),
+    (Profile::Composed, 33),
+    (Profile::Share, 6),
+    (Profile::ShareNested, 7),
+    (Profile::ShareCross, 5),
     (Profile::ForEach, 5),
     (Profile::Indep, 10),
 ];
@@ -262,8 +263,9 @@ pub fn world_engine(prop: &str, thorough: bool) -> Option<WorldEngine> {
             profiles: vec![
                 (Profile::AnySingle, 42),
                 (Profile::Composed, 30),
-                (Profile::Share, 8),
-                (Profile::ShareNested, 10),
+                (Profile::Share, 7),
+                (Profile::ShareNested, 8),
+                (Profile::ShareCross, 5),
                 (Profile::Indep, 10),
             ],
             max_steps,
@@ -279,6 +281,8 @@ pub fn world_engine(prop: &str, thorough: bool) -> Option<WorldEngine> {
                 (Profile::ForEach, 10),
                 (Profile::Indep, 10),
                 (Profile::LateAny, 8),
+                (Profile::ShareCross, 5),
+                (Profile::ShareReattach, 5),
             ],
             max_steps,
             oracle: |cx, _| oracle::c17(cx),
@@ -332,7 +336,7 @@ pub fn world_engine(prop: &str, thorough: bool) -> Option<WorldEngine> {
         },
         "C12" => WorldEngine {
             prop: "C12",
-            profiles: vec![(Profile::Share, 1)],
+            profiles: vec![(Profile::Share, 6), (Profile::ShareCross, 3), (Profile::ShareReattach, 2)],
             max_steps,
             oracle: |cx, _| models::c12(cx),
             nontrivial: |cx, _| models::nt_c12(cx),
